@@ -1026,7 +1026,8 @@ theorem T_C20_guards_table_encoded :
 /-- every entry point of the table has guards (a translator that finds nothing fails; an empty table proves nothing) -/
 theorem T_C20_guards_table_nonempty :
     40 ≤ CBV.Gen.c20Guards.length ∧
-      CBV.Gen.c20Guards.all (fun p => untranslatable p.1 || !((genGuards p.1).flatMap Stmt.raises).isEmpty) = true := by
+      CBV.Gen.c20Guards.all (fun p => untranslatable p.1 ||
+        !((genGuards p.1).flatMap Stmt.raises ++ (genGuards p.1).flatMap Stmt.implicits).isEmpty) = true := by
   decide +kernel
 
 /-! ### evaluating the regenerated guards on the arguments of a call gives the model's outcome, class included -/
@@ -1052,11 +1053,13 @@ theorem T_C20_guards_translated_faceAddEdge (tol : Rat) (rt : Rat → Rat) (c : 
     runStmts (envOf tol rt (.faceAddEdge c)) (genGuards "faceAddEdge") = run tol (.faceAddEdge c) := by
   rw [show genGuards "faceAddEdge" = G_faceAddEdge by decide +kernel]
   simp [G_faceAddEdge, evalC, evalE, evalOp, envOf, nm, run, checks, faceCornerBad]
+  exact implicit_index_unreachable c 3 "FaceCreationError" (by omega)
 
 theorem T_C20_guards_translated_faceProjectEdge (tol : Rat) (rt : Rat → Rat) (c : Int) :
     runStmts (envOf tol rt (.faceProjectEdge c)) (genGuards "faceProjectEdge") = run tol (.faceProjectEdge c) := by
   rw [show genGuards "faceProjectEdge" = G_faceProjectEdge by decide +kernel]
   simp [G_faceProjectEdge, evalC, evalE, evalOp, envOf, nm, run, checks, faceCornerBad]
+  exact implicit_index_unreachable c 3 "FaceCreationError" (by omega)
 
 theorem T_C20_guards_translated_faceRemoveEdges (tol : Rat) (rt : Rat → Rat) (cs : List Int) :
     runStmts (envOf tol rt (.faceRemoveEdges cs)) (genGuards "faceRemoveEdges") = run tol (.faceRemoveEdges cs) := by
@@ -1085,6 +1088,7 @@ theorem T_C20_guards_translated_opAddSideEdge (tol : Rat) (rt : Rat → Rat) (c 
     runStmts (envOf tol rt (.opAddSideEdge c)) (genGuards "opAddSideEdge") = run tol (.opAddSideEdge c) := by
   rw [show genGuards "opAddSideEdge" = G_opAddSideEdge by decide +kernel]
   simp [G_opAddSideEdge, evalC, evalE, evalOp, envOf, nm, run, checks]
+  exact implicit_index_unreachable c 3 "EdgeCreationError" (by omega)
 
 theorem T_C20_guards_translated_opProjectCorner (tol : Rat) (rt : Rat → Rat) (c : Int) :
     runStmts (envOf tol rt (.opProjectCorner c)) (genGuards "opProjectCorner") = run tol (.opProjectCorner c) := by
@@ -1113,6 +1117,14 @@ theorem T_C20_guards_translated_opUnchop (tol : Rat) (rt : Rat → Rat) (a : Int
     runStmts (envOf tol rt (.opUnchop a)) (genGuards "opUnchop") = run tol (.opUnchop a) := by
   rw [show genGuards "opUnchop" = G_opUnchop by decide +kernel]
   simp [G_opUnchop, evalC, evalE, evalOp, envOf, nm, run, checks]
+  by_cases h0 : a = 0 <;> by_cases h1 : a = 1 <;> by_cases h2 : a = 2 <;> simp_all <;> omega
+
+/-- `Operation.chop` has no explicit guard: the look-up `self.chops[axis]` in the dict with the literal keys 0, 1, 2 is its
+    guard (an implicit one, read from the source as such) -/
+theorem T_C20_guards_translated_opChop (tol : Rat) (rt : Rat → Rat) (a : Int) :
+    runStmts (envOf tol rt (.opChop a)) (genGuards "opChop") = run tol (.opChop a) := by
+  rw [show genGuards "opChop" = G_opChop by decide +kernel]
+  simp [G_opChop, evalC, evalE, evalOp, envOf, nm, run, checks]
   by_cases h0 : a = 0 <;> by_cases h1 : a = 1 <;> by_cases h2 : a = 2 <;> simp_all <;> omega
 
 theorem T_C20_guards_translated_opSide (tol : Rat) (rt : Rat → Rat) (side : String) :
@@ -1459,7 +1471,7 @@ theorem T_C20_guards_mirrored_entry_points :
 
 /-- the mutators and functions whose regenerated statements up to the last guard change no state -/
 def atomicEntries : List String :=
-  ["faceAddEdge", "faceProjectEdge", "opAddSideEdge", "opProjectCorner", "opProjectEdge", "opUnchop", "opSide",
+  ["faceAddEdge", "faceProjectEdge", "opAddSideEdge", "opProjectCorner", "opProjectEdge", "opUnchop", "opChop", "opSide",
    "fromSeries", "blockAddEdge", "frameAddBeam", "lengthRatio", "chainCylinder", "chainFrustum", "chainRing",
    "ringContract", "cylinderFill", "stackSlice", "curveParam", "polylineShape", "polarCartesian", "polarPolar",
    "elbowChain", "meshGrade", "meshBackport", "junctionAddClamp", "gridAddLink"]
@@ -1497,5 +1509,68 @@ theorem T_C20_guards_translated_edgeVertices (tol : Rat) (rt : Rat → Rat) (v1 
   rw [show genGuards "edgeVertices" = G_edgeVertices by decide +kernel]
   cases v1 <;> cases v2 <;> simp [G_edgeVertices, evalC, envOf, run, checks]
 
+
+/-! ### round 6c: implicit guards (what a bare subscript / look-up rejects), read from the source -/
+
+/-- where the translator found an implicit guard: a subscript with an argument on a list attribute of fixed length
+    (`IndexError` outside −n … n−1) or a look-up in a dict attribute with literal keys (`KeyError`) -/
+theorem T_C20_guards_implicit_table :
+    (CBV.Gen.c20Guards.flatMap (fun p => ((genGuards p.1).flatMap Stmt.implicits).map (fun q => (p.1, q.1))))
+      = [("faceAddEdge", "IndexError"), ("faceProjectEdge", "IndexError"), ("faceRemoveEdges", "IndexError"),
+         ("opAddSideEdge", "IndexError"), ("opChop", "KeyError")].filter (fun p => !untranslatable p.1) := by
+  decide +kernel
+
+/-- **no argument reaches the bare `IndexError`**: for every entry point that subscripts a fixed-length list with an
+    argument, the explicit guards in front of the subscript already reject everything the subscript would reject
+    (and −4 … −1, which the subscript alone would accept) — removing the implicit guards changes no outcome -/
+theorem T_C20_guards_implicit_unreachable (tol : Rat) (rt : Rat → Rat) (c : Int) (cs : List Int) :
+    runStmts (envOf tol rt (.faceAddEdge c)) (genGuards "faceAddEdge")
+      = runStmts (envOf tol rt (.faceAddEdge c)) (explicitOnly (genGuards "faceAddEdge")) ∧
+    runStmts (envOf tol rt (.faceProjectEdge c)) (genGuards "faceProjectEdge")
+      = runStmts (envOf tol rt (.faceProjectEdge c)) (explicitOnly (genGuards "faceProjectEdge")) ∧
+    runStmts (envOf tol rt (.opAddSideEdge c)) (genGuards "opAddSideEdge")
+      = runStmts (envOf tol rt (.opAddSideEdge c)) (explicitOnly (genGuards "opAddSideEdge")) ∧
+    runStmts (envOf tol rt (.faceRemoveEdges cs)) (genGuards "faceRemoveEdges")
+      = runStmts (envOf tol rt (.faceRemoveEdges cs)) (explicitOnly (genGuards "faceRemoveEdges")) := by
+  refine ⟨?_, ?_, ?_, ?_⟩
+  · rw [T_C20_guards_translated_faceAddEdge,
+      show explicitOnly (genGuards "faceAddEdge") = [.s (.raise "FaceCreationError"
+        (.or (.cmp .lt (.var "corner") (.int 0)) (.cmp .gt (.var "corner") (.int 3))))] by decide +kernel]
+    simp [evalC, evalE, evalOp, envOf, nm, run, checks, faceCornerBad]
+  · rw [T_C20_guards_translated_faceProjectEdge,
+      show explicitOnly (genGuards "faceProjectEdge") = [.s (.raise "FaceCreationError"
+        (.or (.cmp .lt (.var "corner") (.int 0)) (.cmp .gt (.var "corner") (.int 3))))] by decide +kernel]
+    simp [evalC, evalE, evalOp, envOf, nm, run, checks, faceCornerBad]
+  · rw [T_C20_guards_translated_opAddSideEdge,
+      show explicitOnly (genGuards "opAddSideEdge") = [.s (.raise "EdgeCreationError"
+        (.or (.cmp .lt (.var "corner_idx") (.int 0)) (.cmp .gt (.var "corner_idx") (.int 3))))] by decide +kernel]
+    simp [evalC, evalE, evalOp, envOf, nm, run, checks]
+  · rw [T_C20_guards_translated_faceRemoveEdges,
+      show explicitOnly (genGuards "faceRemoveEdges") = [.each "corner" "corners"
+        [.raise "FaceCreationError" (.or (.cmp .lt (.var "corner") (.int 0)) (.cmp .gt (.var "corner") (.int 3))),
+         .mutate "self.edges"]] by decide +kernel]
+    simp only [runStmts_each, runStmts_nil, eachOut_removeEdges_explicit, envOf, run]
+    cases removeEdgesRun cs <;> rfl
+
+/-- the one implicit guard that *is* reached: `Operation.chop(axis)` relies on the look-up alone.  It gives every axis
+    the verdict and the exception class (`KeyError`, one of the classes the property lists) that the mirrored
+    `Operation.unchop` gives through its explicit `raise KeyError(axis)` -/
+theorem T_C20_guards_implicit_chop_mirrors_unchop (tol : Rat) (rt : Rat → Rat) (a : Int) :
+    explicitOnly (genGuards "opChop") = [] ∧
+    runStmts (envOf tol rt (.opChop a)) (genGuards "opChop")
+      = runStmts (envOf tol rt (.opUnchop a)) (genGuards "opUnchop") := by
+  refine ⟨by decide +kernel, ?_⟩
+  rw [T_C20_guards_translated_opChop, T_C20_guards_translated_opUnchop]
+  rfl
+
+/-- why the explicit lower bounds are there: the subscript alone (the implicit guard of `Face.add_edge`, taken from the
+    regenerated table) accepts corner −1 and −4 — python's negative indexing — and rejects −5 and 4 -/
+example :
+    let imp := (genGuards "faceAddEdge").drop 1
+    imp.flatMap Stmt.implicits ≠ [] ∧
+    runStmts (envOf 0 (fun _ => 0) (.faceAddEdge (-1))) imp = .accept ∧
+    runStmts (envOf 0 (fun _ => 0) (.faceAddEdge (-4))) imp = .accept ∧
+    runStmts (envOf 0 (fun _ => 0) (.faceAddEdge (-5))) imp = .reject "IndexError" ∧
+    runStmts (envOf 0 (fun _ => 0) (.faceAddEdge 4)) imp = .reject "IndexError" := by decide +kernel
 
 end CBV.C20
